@@ -823,8 +823,8 @@ pub mod verif {
     use std::sync::Arc;
     use walkdir::WalkDir;
 
-    use crate::filter::{Separation, TreeResidue};
-    use crate::walk::{Entry, FileIterator, WalkError};
+    use crate::filter::{CancelWalk, SeparatingFilter, Separation, TreeResidue};
+    use crate::walk::{Entry, FileFeed, FileFiltrate, FileIterator, WalkError};
 
     /// Comparator over the paths of two entries of one directory.
     pub type EntryOrder = Arc<dyn Fn(&Path, &Path) -> Ordering + Send + Sync>;
@@ -844,6 +844,69 @@ pub mod verif {
         match ENTRY_ORDER.with(|cell| cell.borrow().clone()) {
             Some(order) => builder.sort_by(move |a, b| order(a.path(), b.path())),
             None => builder,
+        }
+    }
+
+    trait DynFileIterator<T, R> {
+        fn dyn_feed(&mut self) -> Option<Separation<FileFeed<T, R>>>;
+
+        fn dyn_next(&mut self) -> Option<FileFiltrate<T>>;
+
+        fn dyn_cancel_walk_tree(&mut self);
+    }
+
+    impl<I> DynFileIterator<I::Entry, I::Residue> for I
+    where
+        I: FileIterator,
+    {
+        fn dyn_feed(&mut self) -> Option<Separation<FileFeed<I::Entry, I::Residue>>> {
+            SeparatingFilter::feed(self)
+        }
+
+        fn dyn_next(&mut self) -> Option<FileFiltrate<I::Entry>> {
+            Iterator::next(self)
+        }
+
+        fn dyn_cancel_walk_tree(&mut self) {
+            CancelWalk::cancel_walk_tree(self)
+        }
+    }
+
+    /// Type-erased [`FileIterator`]. Forwards `next`, `feed` and `cancel_walk_tree` to the erased
+    /// iterator unchanged, so that combinator stacks of arbitrary depth have one type.
+    pub struct Erased<T, R> {
+        inner: Box<dyn DynFileIterator<T, R>>,
+    }
+
+    impl<T, R> CancelWalk for Erased<T, R> {
+        fn cancel_walk_tree(&mut self) {
+            self.inner.dyn_cancel_walk_tree()
+        }
+    }
+
+    impl<T, R> SeparatingFilter for Erased<T, R> {
+        type Feed = FileFeed<T, R>;
+
+        fn feed(&mut self) -> Option<Separation<Self::Feed>> {
+            self.inner.dyn_feed()
+        }
+    }
+
+    impl<T, R> Iterator for Erased<T, R> {
+        type Item = FileFiltrate<T>;
+
+        fn next(&mut self) -> Option<Self::Item> {
+            self.inner.dyn_next()
+        }
+    }
+
+    /// Erases the type of a [`FileIterator`].
+    pub fn erase<I>(input: I) -> Erased<I::Entry, I::Residue>
+    where
+        I: 'static + FileIterator,
+    {
+        Erased {
+            inner: Box::new(input),
         }
     }
 
